@@ -86,15 +86,17 @@ def check_alphabet(vh):
 TLC_STATS = re.compile(r"(\d+) states generated, (\d+) distinct states found, (\d+) states left on queue")
 
 
-def run_tlc(module, cfg, out_name=None, workers=8, timeout=900, extra=None, env=None, simulate=None, heap=None):
+def run_tlc(module, cfg, out_name=None, workers=8, timeout=900, extra=None, env=None, simulate=None, heap=None, tag=""):
     """Runs TLC in a scratch copy of spec/. Returns dict(ok, states, distinct, out, violated, text_tail)."""
-    sdir = os.path.join(scratch(), "spec-%s-%s" % (module, os.path.basename(cfg).replace(".cfg", "")))
+    sdir = os.path.join(scratch(), "spec-%s-%s%s" % (module, os.path.basename(cfg).replace(".cfg", ""), tag))
     if os.path.isdir(sdir):
         shutil.rmtree(sdir)
     shutil.copytree(SPEC, sdir)
-    out = os.path.join(scratch(), out_name or ("tlc-%s-%s.out" % (module, os.path.basename(cfg))))
+    out = os.path.join(scratch(), out_name or ("tlc-%s-%s%s.out" % (module, os.path.basename(cfg), tag)))
+    # -checkpoint 0: a checkpoint recomputes the behaviour's length and fails beyond 65535 states, which
+    # trace / observation validation (one long behaviour) exceeds
     cmd = ["timeout", str(timeout), "tlc", "-workers", str(workers), "-metadir", os.path.join(sdir, "md"),
-           "-config", cfg]
+           "-checkpoint", "0", "-config", cfg]
     if simulate:
         cmd += ["-simulate", simulate]
     if extra:
